@@ -257,6 +257,7 @@ func C07(p *ir.Program, r *report.R) {
 		for _, sp := range []struct{ rel, fn, name, st, tn, skip string }{
 			{"app", "processTransaction.checkNonce", "app.(*processTransaction).checkNonce", "*StateDB.GetNonce(tx.State,tx.Inputs[*].From)", "tx.Inputs[*].Nonce", ""},
 			{"types", "UTXOTransaction.CheckStoreState", "types.(*UTXOTransaction).CheckStoreState", "types.State.GetNonce(*)", "*.(*types.AccountInput)#0.Nonce", "!*.(*types.AccountInput)#1"},
+			{"types", "UTXOTransaction.checkState", "types.(*UTXOTransaction).checkState", "types.State.GetNonce(*)", "*.(*types.AccountInput)#0.Nonce", "!*.(*types.AccountInput)#1"},
 		} {
 			fn := p.Func(sp.rel, sp.fn)
 			var loop *ir.Loop
@@ -295,7 +296,6 @@ func C07(p *ir.Program, r *report.R) {
 		for _, sp := range []struct{ fn, name, want string }{
 			{"Transaction.CheckState", "types.(*Transaction).CheckState", "(types.Transaction.Nonce(tx) + 1)"},
 			{"TokenTransaction.CheckState", "types.(*TokenTransaction).CheckState", "(types.TokenTransaction.Nonce(tx) + 1)"},
-			{"UTXOTransaction.checkState", "types.(*UTXOTransaction).checkState", "(*.(*types.AccountInput)#0.Nonce + 1)"},
 		} {
 			fn := p.Func("types", sp.fn)
 			for _, call := range ir.Calls(fn, "types.State.SetNonce") {
@@ -305,6 +305,40 @@ func C07(p *ir.Program, r *report.R) {
 				okB := ir.HasFact(fs, "le(types.State.GetNonce(*),"+tn+")") && ir.HasFact(fs, "le("+tn+",types.State.GetNonce(*))")
 				r.Check("K6", sp.name+"/advance-only-at-exact-nonce", p.InstrPos(call), okB, "the nonce is advanced only where stateNonce <= txNonce and txNonce <= stateNonce both hold (exact next nonce)")
 			}
+		}
+		// UTXO checkState applies the account input after all checks: the input recorded is the one that
+		// passed the exact-nonce test in its iteration, and the nonce becomes that input's nonce + 1
+		{
+			fn := p.Func("types", "UTXOTransaction.checkState")
+			name := "types.(*UTXOTransaction).checkState"
+			for _, call := range ir.Calls(fn, "types.State.SetNonce") {
+				r.Check("K6", name+"/advance-by-one", p.InstrPos(call), Arg(call, 2) == "(φ:accInput.Nonce + 1)", "the check state nonce becomes the recorded account input's nonce + 1: "+Arg(call, 2))
+				c.Guards(name, "advance", call, G{"account-input-recorded", "!eq(φ:accInput,nil)"})
+				// nothing rejects after the advance
+				bad := false
+				for _, rt := range ir.Returns(fn) {
+					if ir.AbstractResult(rt.Results[0]) != "nil" {
+						if found, _, _ := ir.FindPath(ir.PathQuery{From: ir.At(call), Target: func(x ssa.Instruction) bool { return x == ssa.Instruction(rt.Instr) }}); found {
+							bad = true
+						}
+					}
+				}
+				r.Check("K2", name+"/advance-is-final", p.InstrPos(call), !bad, "no rejection can follow the advance of the check state")
+			}
+			// the recorded input comes from the AccountInput case of the loop
+			okRec := false
+			for _, b := range fn.Blocks {
+				for _, in := range b.Instrs {
+					if ph, ok := in.(*ssa.Phi); ok && ph.Comment == "accInput" {
+						for _, e := range ph.Edges {
+							if ir.Match("*.(*types.AccountInput)#0", ir.Render(e)) {
+								okRec = true
+							}
+						}
+					}
+				}
+			}
+			r.Check("K6", name+"/records-the-checked-input", p.Pos(fn.Pos()), okRec, "accInput is assigned from the account input handled in the loop")
 		}
 		// execution side
 		sn := p.Func("app", "processTransaction.setNonce")
